@@ -109,13 +109,15 @@ fn judge(p: &ProcOut, exp_status: &str, exp_out: &[Value]) -> Option<(String, St
         return Some(("mismatch".into(), format!("{} stdout lines, expected {}", lines.len(), exp_out.len())));
     }
     for (i, (l, e)) in lines.iter().zip(exp_out.iter()).enumerate() {
-        match serde_json::from_str::<Value>(l) {
-            Ok(v) => {
-                if !aj::same(e, &aj::to_aj(&v), false) {
-                    return Some(("mismatch".into(), format!("stdout line {} is {}, expected {}", i + 1, l, aj::from_aj(e).map(|x| x.to_string()).unwrap_or_default())));
-                }
+        // each line must be exactly the serialisation of the expected value (compared as text: serde_json's
+        // float parser is not an exact inverse of its printer, so re-parsing the line could be off by one ulp)
+        let want = aj::from_aj(e).map(|x| x.to_string()).unwrap_or_else(|er| die(&er));
+        if *l != want {
+            // a zero result may be spelled 0, 0.0 or -0.0 (left open by the statements)
+            let zero = |t: &str| t == "0" || t == "0.0" || t == "-0.0";
+            if !(zero(l) && zero(&want)) {
+                return Some(("mismatch".into(), format!("stdout line {} is {}, expected {}", i + 1, l, want)));
             }
-            Err(_) => return Some(("mismatch".into(), format!("stdout line {} is not JSON: {}", i + 1, l))),
         }
     }
     None
